@@ -8,7 +8,7 @@ import time
 
 import numpy as np
 
-from . import common, gencheck as G, instances as I, explore as X
+from . import common, gencheck as G, instances as I, explore as X, atomgen as A
 from .common import Verdict, MachineryError, run_tlc, Scratch
 from .gast import Mol, Sto, Token, Dist, M, S
 
@@ -62,19 +62,7 @@ def ag_call(g):
     return call
 
 
-def ag_project(ag):
-    from rdkit import Chem
-    gr = ag.graph
-    nodes = [int(gr.nodes[n]["stochastic_node"]) + 1 for n in sorted(gr.nodes)]
-    edges = [[int(a) + 1, int(b) + 1, int(d["bond_type"])] for a, b, d in gr.edges(data=True)]
-    try:
-        mol = ag.to_mol()
-        smi = Chem.MolToSmiles(mol)
-        frags = len(Chem.GetMolFrags(mol))
-        sane = True
-    except Exception as exc:
-        smi, sane, frags = f"{type(exc).__name__}", False, 0
-    return {"kind": "mol", "nodes": nodes, "edges": edges, "sane": sane, "smiles": smi, "fragments": frags}
+ag_project = A.ag_project
 
 
 def validate(mol: Mol, observations, tag="ag18", timeout=600):
@@ -90,15 +78,23 @@ def validate(mol: Mol, observations, tag="ag18", timeout=600):
     return r
 
 
+# clauses of the step-level comparison with spec/AtomGenMachine.tla that are clauses of C18's statement
+MACHINE_C18_CLAUSES = ("model-WholeResidues", "model-InternalBonds", "model-LinksAlongEdges", "model-ResidueTree", "nontermination")
+
+
 def _one(args):
     """explore + validate one instance in a worker process; returns (violations, stats)"""
     m, tier, seed0 = args
     g = common.import_repo()
     X.Tap.install(g)
+    from gbigsmiles.chem_resource import atomic_masses
     signal.signal(signal.SIGALRM, _alarm)
     call = ag_call(g)
     out = []
-    stats = {"states": 0, "mols": 0, "paths": 0, "sample": None, "machinery": None}
+    stats = {"states": 0, "mols": 0, "paths": 0, "sample": None, "machinery": None,
+             "machine": {"tree_nodes": 0, "tree_nodes_explained": 0, "divergences": [], "census": {}, "mc_states": 0, "mc_census": {},
+                         "behaviours_replayed": 0, "behaviour_mismatches": [], "bisimilar": False, "liveness_checked": False}}
+    M_ = stats["machine"]
     budget = dict(max_nodes=600, max_seconds=6) if tier == "quick" else dict(max_nodes=15000, max_seconds=120)
     text = m.text()
     try:
@@ -114,6 +110,11 @@ def _one(args):
         return out, stats
     if start is None:
         return out, stats      # outside C18 ("every graph that has a start node")
+    try:
+        gc = A.export_graph(sag.graph, atomic_masses)
+    except A.GraphNotExportable as exc:
+        gc = None
+        M_["divergences"].append(f"graph not exportable: {exc}")
     obs = []
 
     def guarded(o, rng, _c=call):
@@ -122,10 +123,75 @@ def _one(args):
             return _c(o, rng)
         finally:
             signal.alarm(0)
-    tree = X.explore(obj, call=guarded, projector=ag_project, qgrid={"uniform": [0.25, 0.6, 0.9]}, **budget)
+    # the choice tree of the implementation; options the code only has because it adds 1e-300 to every weight are not explored
+    tree = X.explore(obj, call=guarded, projector=ag_project, qgrid={"uniform": [0.25, 0.6, 0.9]}, min_p=A.MIN_P, **budget)
     for n in tree.nodes:
         if not n["kids"]:
             obs.append(n["obs"])
+    for nd in tree.nondeterminism[:3]:
+        out.append(("C18:equal-scripts-different-decisions", f"{text}: the same scripted generator met different decisions at tree node {nd['node']}", {"instance": text}))
+    # ---- step level: the tree against the machine of the specification (code -> spec) ----
+    if gc is not None:
+        mres = A.validate_machine(gc, tree, tag="agm18")
+        if mres.error:
+            stats["machinery"] = f"TLC failed on the atom-graph machine trace of {m.name}\n" + mres.tail
+            return out, stats
+        M_["tree_nodes"] = mres.nodes
+        M_["tree_nodes_explained"] = mres.reached
+        M_["census"] = mres.census
+        for d in mres.diags:
+            for c in d["failed"]:
+                if c.split(":")[0] in MACHINE_C18_CLAUSES:
+                    if c != "nontermination":      # (non-termination is reported from the observations below)
+                        out.append((f"C18:followed-state:{c}", f"{text}: following the implementation's decisions the machine reaches a state where {c} fails "
+                                                             f"(tree node {d['node']}, {d.get('natoms')} atoms)", {"instance": text, "diag": d}))
+                else:
+                    M_["divergences"].append(f"node {d['node']}: {c}")
+        M_["bisimilar"] = (not mres.diags) and mres.reached == mres.nodes and not tree.truncated
+        # ---- design level: the machine on this graph, every option, target grid, liveness ----
+        grid = [300000, 700000] if tier == "quick" else [300000, 700000, 1500000]
+        tg = [list(grid) for _ in gc["keys"]]
+        mc = A.model_check_graph(gc, tg, tag="agmc18", timeout=120 if tier == "quick" else 900)
+        if mc["ok"]:
+            M_["mc_states"] = mc["distinct"]
+            M_["mc_census"] = mc["coverage"]
+            M_["liveness_checked"] = True
+        elif mc["violated"]:
+            # the machine itself breaks an invariant / does not terminate on the graph the implementation built: a statement about the code
+            # only where the code was seen to follow the machine step by step
+            what = f"{text}: on the stochastic atom graph of this molecule the generation machine violates {mc['violated']}"
+            if M_["bisimilar"] or not mres.diags:
+                out.append((f"C18:machine:{mc['violated']}", what + "\n" + mc["tail"][-1500:], {"instance": text}))
+            else:
+                M_["divergences"].append("machine violates " + str(mc["violated"]) + " (not reported: the code does not follow the machine here)")
+        else:
+            M_["divergences"].append("model checking of the machine did not finish: " + mc["tail"][-200:].replace("\n", " "))
+        # ---- spec -> code: behaviours generated by TLC stepped through the real code ----
+        behs, r = A.export_behaviours(gc, tg, tag="agmch18", timeout=90 if tier == "quick" else 600)
+        if not r.ok and not behs:
+            behs, r = A.export_behaviours(gc, tg, tag="agmch18s", timeout=120, simulate=(40, 300))
+        if tier == "thorough":
+            deep, r2 = A.export_behaviours(gc, [[3000000, 8000000] for _ in gc["keys"]], tag="agmch18d", timeout=600, simulate=(60, 800))
+            behs = behs + deep
+        cap = 150 if tier == "quick" else 3000
+        if len(behs) > cap:
+            step = len(behs) / cap
+            behs = [behs[int(i * step)] for i in range(cap)]
+        for b in behs:
+            signal.alarm(180)
+            try:
+                mm = A.replay_behaviour(obj, call, b)
+            except Timeout:
+                mm = ["replay does not return"]
+            finally:
+                signal.alarm(0)
+            M_["behaviours_replayed"] += 1
+            if mm:
+                if len(M_["behaviour_mismatches"]) < 5:
+                    M_["behaviour_mismatches"].append({"hist": b["hist"][:40], "mismatch": mm})
+            # whatever the code built on this schedule is judged by C18's clauses like every other generated molecule
+            if getattr(A, "last_obs", None) and A.last_obs.get("kind") == "mol":
+                obs.append(A.last_obs)
     for seed in range(4 if tier == "quick" else 25):
         outs = []
         for rep in range(2):
@@ -181,6 +247,30 @@ def run(tier):
         results = list(ex.map(_one, [(m, tier, common.seed()) for m in insts], chunksize=1))
     states = n_mols = n_paths = 0
     samples = []
+    mach = {"instances_with_machine": 0, "instances_bisimilar_on_explored_tree": 0, "tree_nodes": 0, "tree_nodes_explained": 0,
+            "mc_states": 0, "instances_liveness_checked": 0, "behaviours_replayed_into_code": 0, "behaviours_reproduced_exactly": 0,
+            "census": {}, "mc_census": {}, "divergences_not_c18": [], "behaviour_mismatches": []}
+    for (viol, st), m_ in zip(results, insts):
+        M_ = st.get("machine") or {}
+        if M_.get("tree_nodes"):
+            mach["instances_with_machine"] += 1
+            mach["instances_bisimilar_on_explored_tree"] += 1 if M_["bisimilar"] else 0
+            mach["tree_nodes"] += M_["tree_nodes"]
+            mach["tree_nodes_explained"] += M_["tree_nodes_explained"]
+            mach["mc_states"] += M_["mc_states"]
+            mach["instances_liveness_checked"] += 1 if M_["liveness_checked"] else 0
+            mach["behaviours_replayed_into_code"] += M_["behaviours_replayed"]
+            mach["behaviours_reproduced_exactly"] += M_["behaviours_replayed"] - len(M_["behaviour_mismatches"])
+            for k, c in M_["census"].items():
+                mach["census"][k] = mach["census"].get(k, 0) + c
+            for k, c in M_["mc_census"].items():
+                mach["mc_census"][k] = mach["mc_census"].get(k, 0) + c
+            for d in M_["divergences"][:3]:
+                if len(mach["divergences_not_c18"]) < 40:
+                    mach["divergences_not_c18"].append(f"{m_.name}: {d}")
+            for d in M_["behaviour_mismatches"][:2]:
+                if len(mach["behaviour_mismatches"]) < 20:
+                    mach["behaviour_mismatches"].append({"instance": m_.name, **d})
     for viol, st in results:
         if st["machinery"]:
             print(st["machinery"])
@@ -192,8 +282,17 @@ def run(tier):
         n_paths += st["paths"]
         if st["sample"] and len(samples) < 4:
             samples.append(st["sample"])
-    v.coverage = {"states": states, "transitions": states, "traces_validated_against_impl": n_mols, "molecules_validated": n_mols, "choice_paths": n_paths,
-                  "instances": len(insts), "samples": samples}
+    # vacuity guard of the step-level part: every decision kind of the machine was met in the implementation's trees and in model checking
+    if not any(st["machinery"] for _, st in results):
+        kinds_seen = {k.split("/")[0] for k, c in mach["census"].items() if c and "/" in k}
+        if mach["instances_with_machine"] and kinds_seen != set(A.KINDS):
+            raise MachineryError(f"atom-graph machine: decision kinds exercised {sorted(kinds_seen)} != {A.KINDS}")
+    v.coverage = {"states": states + mach["mc_states"] + mach["tree_nodes_explained"], "transitions": states + mach["mc_states"],
+                  "traces_validated_against_impl": n_mols, "molecules_validated": n_mols, "choice_paths": n_paths,
+                  "instances": len(insts), "samples": samples, "atom_graph_machine": mach}
+    if mach["divergences_not_c18"] or mach["behaviour_mismatches"]:
+        v.notes.append("the implementation does not follow spec/AtomGenMachine.tla step by step on some instance (decisions, probabilities or built graph differ) - "
+                       "not a clause of C18: C18 is judged on the molecules it built; see coverage.atom_graph_machine")
     v.assumptions = ["molecules started from one of several end groups have no start node and are outside C18 (the statement's precondition)",
                      "residue instances are the blocks of atoms in creation order", "scipy's failures of the Schulz-Zimm quantile search are C11's matter and skipped here"]
     return v.finish()
